@@ -235,6 +235,16 @@ BROKEN_WINDOWS = ("expired", "not-yet", "expired-1h", "not-yet-1h", "expired-30m
 
 
 def make_cert(subject_cn, subject_pub, issuer_cn, issuer_priv, window="valid", serial=1):
+    if isinstance(window, (list, tuple)) and window[0] == "abs":
+        # absolute bounds (seconds since the epoch)
+        t0 = _dt.datetime.fromtimestamp(int(window[1]), _dt.timezone.utc)
+        t1 = _dt.datetime.fromtimestamp(int(window[2]), _dt.timezone.utc)
+        b = (x509.CertificateBuilder()
+             .subject_name(x509.Name([x509.NameAttribute(NameOID.COMMON_NAME, subject_cn)]))
+             .issuer_name(x509.Name([x509.NameAttribute(NameOID.COMMON_NAME, issuer_cn)]))
+             .public_key(subject_pub).serial_number(serial)
+             .not_valid_before(t0).not_valid_after(t1))
+        return b.sign(issuer_priv, hashes.SHA256())
     nb, na = WINDOWS[window]
     b = (x509.CertificateBuilder()
          .subject_name(x509.Name([x509.NameAttribute(NameOID.COMMON_NAME, subject_cn)]))
